@@ -38,7 +38,8 @@ type c11Msg struct {
 	Cases      []c11Case `json:"cases,omitempty"`  // explicit cases of the plural
 	Body       []c11Part `json:"body"`             // flat body, or the {default} case
 	NestedSrc  string    `json:"nested,omitempty"` // a plural nested in the first case (source text)
-	Tags       []string  `json:"tags,omitempty"`   // triggers: lookalike, empty, nested, badplural, parens
+	Tags       []string  `json:"tags,omitempty"`   // triggers: lookalike, empty, nested, badplural, parens, descnl
+	Desc       string    `json:"desc,omitempty"`   // appended to the generated description (source text of the attribute)
 }
 
 func (m *c11Msg) has(tag string) bool {
@@ -237,7 +238,7 @@ func c11Src(ps []c11Part) string {
 // the {msg} command as generated
 func (m *c11Msg) source() string {
 	var sb strings.Builder
-	sb.WriteString(fmt.Sprintf(`{msg desc="m%d"`, m.Idx))
+	sb.WriteString(fmt.Sprintf(`{msg desc="m%d%s"`, m.Idx, m.Desc))
 	if m.Meaning != "" {
 		sb.WriteString(` meaning="` + m.Meaning + `"`)
 	}
@@ -480,5 +481,9 @@ func c11Corpus() []c11CorpusCase {
 	// names outside [A-Z0-9_]+
 	r = append(r, mk(" * @param été\n * @param n\n", []data.Map{{"été": data.String("summer"), "n": data.Int(2)}}, flat(tx("A "), ph("{$été}"), tx(" B"))))
 	r = append(r, mk(" * @param _\n * @param n\n", []data.Map{{"_": data.String("us"), "n": data.Int(2)}}, flat(tx("A "), ph("{$_}"), tx(" B"))))
+	// a description of two lines (the attribute is a quoted string: \n is a newline): finding desc-newline
+	twoLines := tag(flat(tx("Hello "), ph("{$name}")), "descnl")
+	twoLines.Desc = `: first line\nsecond line`
+	r = append(r, mk(std, nums[:2], twoLines, flat(tx("another message of the same project"))))
 	return r
 }
